@@ -340,6 +340,14 @@ pub fn gen_for(which: u32, seed: u64, count: usize, thorough: bool) -> String {
             if r.chance(1, 3) {
                 writeln!(out, "add {} {}", start, r.below(f.nodes as u64)).unwrap();
             }
+            // started but nothing dispatched yet (the event set's own clock is still 0): the past must still be rejected
+            if r.chance(1, 3) {
+                writeln!(out, "{}", if r.chance(1, 2) { "stepn 0".to_string() } else { format!("until {}", start.saturating_sub(1)) }).unwrap();
+                if start > 0 {
+                    writeln!(out, "add {} {}", start - r.range(1, start.min(3)), r.below(f.nodes as u64)).unwrap();
+                }
+                writeln!(out, "add {} {}", start + r.below(2), r.below(f.nodes as u64)).unwrap();
+            }
         }
         if which == 10 {
             let steps = r.range(1, 6);
@@ -352,7 +360,8 @@ pub fn gen_for(which: u32, seed: u64, count: usize, thorough: bool) -> String {
                         // external add while paused: around "now" (unknown here: use small offsets from start
                         // and from typical event times) — early times are legitimately rejected
                         let base = if r.chance(1, 2) { start } else { start + delay(&mut r, n, t) };
-                        writeln!(out, "add {} {}", base + r.below(3), r.below(f.nodes as u64)).unwrap();
+                        let time = if r.chance(1, 5) { base.saturating_sub(r.range(1, 3)) } else { base + r.below(3) };
+                        writeln!(out, "add {} {}", time, r.below(f.nodes as u64)).unwrap();
                     }
                 }
             }
